@@ -4,8 +4,7 @@ import ChythonModel.Findings.C13Old
 Witnesses for the C13 findings (informational; failing to build is never an alarm).
 
 `old` is the effect table of /repo *before* the C13 `fix:` commits (frozen in `Findings/C13Old.lean`).  The analysis
-rejects it, and the executable model run on it exhibits each probed defect as a concrete trace.  The last section is
-the known finding that is still present in today's table.
+rejects it, and the executable model run on it exhibits each probed defect as a concrete trace.  (The former known finding — attribute write plus structural edit in one transaction — was repaired by /repo commit 5256c7c.)
 -/
 namespace ChythonModel.Findings.C13
 open ChythonModel.Model ChythonModel.Model.C13 ChythonModel.Gen.CacheEffects ChythonModel.Spec.Deps
@@ -66,17 +65,5 @@ theorem witness_shared_vector :
 theorem witness_abort_keeps_pending :
     ((runHist old (freshWorld demoMol) [(.enter 0, []), (.addAtom 0 6 (some 10) false, []), (.exitExc 0, [])]).objs.map
       (·.changed)) = [some (some [10])] := by decide +kernel
-
-/-! ## still present: an attribute write and a structural edit in one transaction (known finding) -/
-
-/-- the full statement is false of today's code: `with m: m.atom(3).charge = -1; m.add_bond(4, 1, 1)` leaves atom 3 stale
-because the pending set `{4, 1}` created by the edit does not contain it -/
-theorem hydrogens_fresh_false : ¬ HydrogensFresh := by
-  intro h
-  have := h ⟨[(1, { z := 6 }), (2, { z := 6 }), (3, { z := 8 }), (4, { z := 6 })],
-             [(1, [(2, { order := 1 })]), (2, [(1, { order := 1 }), (3, { order := 1 })]), (3, [(2, { order := 1 })]), (4, [])]⟩
-    [(.enter 0, []), (.setCharge 0 3 (-1), []), (.addBond 0 4 1 1 false, []), (.exitOk 0, [])] (by decide +kernel)
-  revert this
-  decide +kernel
 
 end ChythonModel.Findings.C13
